@@ -124,11 +124,30 @@ def _symq(n, d):
         return n / d
 
 
+def _symbolic_scope():
+    """names that only occur in printed forms under the symbolic engine: exact rationals and opaque tokens of symbolic numbers"""
+    scope = {"SYMQ": _symq}
+    try:
+        from symreal import core
+        for (kind, _), (name, term) in list(core._TOKENS.items()):
+            scope[name] = core.SymInt(term) if kind == "I" else core.SymReal(term)
+        fresh = [0]
+
+        def lossy(text, spec):
+            import z3
+            fresh[0] += 1
+            return core.SymReal(z3.Real(f"lossy_{fresh[0]}"))
+        scope["LOSSY"] = lossy
+    except ImportError:
+        pass
+    return scope
+
+
 def clone(obj, sm, E):
     """a freshly built structural copy: the printed constructor call evaluated with the public names in scope"""
     scope = {k: getattr(E, k) for k in E.__all__}
     scope.update({k: getattr(sm, k) for k in sm.__all__})
-    scope["SYMQ"] = _symq
+    scope.update(_symbolic_scope())
     return eval(repr(obj), {"__builtins__": {}}, scope)
 
 
@@ -478,4 +497,73 @@ def exec_barenumber(spec, env):
         outs.append(rt.outcome(lambda: sm.Derivative(box["n"]) and 0))
     else:
         outs += [o, o]
+    return outs
+
+
+# ------------------------------------------------------------------------------------------ equality and hashing (C12)
+
+def build_obj(o, env):
+    """object spec -> object.  ["expr", d] | ["Point", [[name, num], ...]] | ["Partial", d, var, early] | ["Derivative", d, early]
+    | ["Differential", d, early] | ["LocatedDifferential", d, [[name, num], ...]] | ["foreign", name]"""
+    sm, E = rt.ns()
+    k = o[0]
+    if k == "expr":
+        return rt.build(o[1], env, {})
+    if k == "Point":
+        return sm.Point(**{n: rt.resolve(v, env) for n, v in o[1]})
+    if k == "Partial":
+        v = E.Variable(o[2][4:]) if o[2].startswith("obj:") else o[2]
+        return sm.Partial(rt.build(o[1], env, {}), v, compute_early=bool(o[3]))
+    if k == "Derivative":
+        return sm.Derivative(rt.build(o[1], env, {}), compute_early=bool(o[2]))
+    if k == "Differential":
+        return sm.Differential(rt.build(o[1], env, {}), compute_early=bool(o[2]))
+    if k == "LocatedDifferential":
+        return sm.LocatedDifferential(rt.build(o[1], env, {}), sm.Point(**{n: rt.resolve(v, env) for n, v in o[2]}))
+    if k == "foreign":
+        return foreign(o[1], sm, E)
+    raise KeyError(k)
+
+
+def _h(x):
+    # hash(x) must be a real int for the builtin; calling __hash__ directly also works under the symbolic engine (UF-valued hash)
+    return type(x).__hash__(x)
+
+
+@concrete.register("pair")
+def exec_pair(spec, env):
+    """outs: [a==b, b==a, a==a and b==b, a!=b, hash(a), hash(b), (b==c, a==c if a third object is given)], then comparisons with foreign objects"""
+    sm, E = rt.ns()
+    a, b = build_obj(spec["a"], env), build_obj(spec["b"], env)
+    outs = [rt.outcome(lambda: bool(a == b)), rt.outcome(lambda: bool(b == a)), rt.outcome(lambda: bool(a == a) and bool(b == b)),
+            rt.outcome(lambda: bool(a != b)), rt.outcome(lambda: _h(a)), rt.outcome(lambda: _h(b))]
+    if spec.get("c"):
+        c = build_obj(spec["c"], env)
+        outs += [rt.outcome(lambda: bool(b == c)), rt.outcome(lambda: bool(a == c)), rt.outcome(lambda: _h(c))]
+    else:
+        outs += [{"kind": "value", "value": None}] * 3
+    for f in spec.get("foreign", []):
+        fo = foreign(f, sm, E)
+        outs.append(rt.outcome(lambda: (bool(a == fo), bool(fo == a), bool(a != fo))[0]))
+    if spec.get("containers"):
+        # real set / dict membership (concrete replay and ground cases only)
+        outs.append(rt.outcome(lambda: (b in {a}) == bool(a == b) and ({a: 1}.get(b) == 1) == bool(a == b)))
+    return outs
+
+
+
+@concrete.register("reprpair")
+def exec_reprpair(spec, env):
+    """C13: print a, then b, in the same process; evaluate the printed text back"""
+    sm, E = rt.ns()
+    a, b = build_obj(spec["a"], env), build_obj(spec["b"], env)
+    outs = [rt.outcome(lambda: repr(a)), rt.outcome(lambda: repr(b)), rt.outcome(lambda: str(a)), rt.outcome(lambda: str(b)),
+            rt.outcome(lambda: bool(a == b))]
+
+    def roundtrip(o):
+        c = clone(o, sm, E)
+        return bool(c == o) and bool(o == c) and type(c) is type(o) and repr(c) == repr(o)
+    outs.append(rt.outcome(lambda: roundtrip(a)))
+    outs.append(rt.outcome(lambda: roundtrip(b)))
+    outs.append(rt.outcome(lambda: repr(a)))
     return outs
